@@ -286,7 +286,7 @@ void UpString(char* s) {
             break;
         default:
             if (!hypquot) {
-                *z = UpCaseTable[(int)*z];
+                *z = UpCaseTable[(unsigned char)*z];
             }
         }
         LastBk = ThisBk;
